@@ -24,7 +24,8 @@ MIN_COUNTERS = dict(quick={'honesty_asserted:Derivative': 1200, 'honesty_asserte
                            'honesty_asserted:Hessian': 150, 'record_asserted': 3000,
                            'estimate_decided_the_case': 100, 'stationary_point_entries_asserted': 60},
                     thorough={'honesty_asserted:Derivative': 60000})
-RULE = ('Derivative cases as in C01 (random expression programs x points x every (method, n, order) cell x step '
+RULE = ('Input classes and histories as in C01, plus full_output switched on after construction, stationary points with a single difference quotient, and the C01 corpus. ' 
+        'Derivative cases as in C01 (random expression programs x points x every (method, n, order) cell x step '
         'specifications) plus Gradient / Jacobian / Hessdiag / Hessian on separable-plus-cross families F(x) = sum_k a_ik '
         'g_k(x_k) + beta x_p x_q with univariate programs g_k (exact partial derivatives from jets), dimension 1..4, all '
         'methods; every call with full_output=True. distinct non-trivial = (class, method, n, order, program) whose error '
